@@ -444,6 +444,9 @@ func c15Session(c *runCtx, r *rng, gb string, n int) {
 				left = append(left, l)
 			}
 		}
+		if keep := os.Getenv("VERIF_KEEP_DIR"); keep != "" {
+			exec.Command("cp", "-a", w.b, filepath.Join(keep, fmt.Sprintf("wipe-left-%d", c.nCases))).Run()
+		}
 		c.violation(c.nCases, "C15/wipe-left-refs", fmt.Sprintf("refs of git-bug remain after wipe: %v; wipe said (err=%v): %s (session %v)", left, werr, trunc(wout, 300), log), nil)
 	}
 }
